@@ -90,13 +90,13 @@ impl Hooks for ModelHooks {
             // but not running is not the call's fault
             let slack = self.inner.sched.my_credit().saturating_sub(CREDIT0.with(|c| c.get()));
             let dl = dl.saturating_add(slack);
-            if now.saturating_add(t) > dl + Duration::from_nanos(1) {
+            if now.saturating_add(t) > dl.saturating_add(Duration::from_nanos(1)) {
                 self.inner.sched.violate(
                     "C08",
                     "waits_past_timeout",
                     format!(
                         "a blocking call that must return by {dl:?} starts a wait of {t:?} at {now:?} (it would sleep until {:?})",
-                        now + t
+                        now.saturating_add(t)
                     ),
                 );
             }
@@ -272,8 +272,8 @@ impl Engine for ChanThreads {
                 attempt_end(&sh2, no, &outcome);
                 match outcome {
                     ProcOutcome::Ok => Ok(()),
-                    ProcOutcome::Fail => Err(BatchError::no_retry(TestErr)),
-                    ProcOutcome::Retry(rem) => Err(BatchError::retry(TestErr, rem)),
+                    ProcOutcome::Fail => Err(build_error(&sh2, None)),
+                    ProcOutcome::Retry(rem) => Err(build_error(&sh2, Some(rem))),
                     ProcOutcome::PanicSync | ProcOutcome::PanicAsync => panic::panic_any(Injected("processor")),
                 }
             })
